@@ -1,4 +1,6 @@
 import JunoModel.C13.ProofsToy
+import JunoModel.C13.ProofsCrash2
+import JunoModel.C13.Tendermint
 /-!
 C13 — property theorems (statements only; helper lemmas are in `Proofs*.lean`).
 Every theorem in this module is an obligation listed in evidence/C13.json with its axioms.
@@ -133,7 +135,7 @@ theorem replay_deterministic_commit_in_flight {S} (M : Machine S) (hs : ReplaySa
   · have hwal : walOf (M.step (liveRun M (M.init (c0 + 1)) ins).1 i).2 = [e] := by
       rw [h2]; simp [walOf, hw]
     rw [r1, hwal]
-    exact (liveInv_step M hs _ _ _ _ inv i e ar h2 he hh hstart).1.symm
+    exact (liveInv_step M hs _ _ _ _ inv i e ar hi h2 he hh hstart).1.state.symm
 
 /-- **resume_height.** Whatever the crash image, after recovery the machine's height is exactly one
 above the last delivered height (deliveries performed while replaying included). -/
@@ -142,20 +144,11 @@ theorem resume_height {S} (M : Machine S) (hs : ReplaySafe M) (n : Node) :
   resume_height_run M hs n.crash.store.load (M.init (n.crash.chainHeight + 1)) n.crash
     (hs.height_init _)
 
-/-- **no_conflicting_vote_after_recovery** — PARTIAL: proved for every crash point whose image
-satisfies the two bookkeeping facts stated as hypotheses, (a) `hview`/`hchain`: the image holds the
-node's log above a watermark `p ≤ chain` and the chain is one below the machine's height, and
-(b) `hpre`: the votes broadcast before the crash are among those of the run `ins`. What is missing
-for the full statement (`∀ pre post, trace = pre ++ post → …` with `n := applyEffects (Node.fresh
-c0) pre`): the proof that EVERY prefix of the effect trace yields such an image for a suitable
-prefix of the inputs (a fact about `effectsOf` / `applyEffects` alone: entries become durable in
-recording order, a prune follows its delivery, a delivery follows the flush of its cause —
-`visible_implies_logged` is its core). The harness compares the image of every crash point of
-every run with the model (`crash-image-log`) and runs the oracle on the real driver.
-
-Conclusion: no prevote/precommit broadcast after the restart — during replay or while processing
-ANY further inputs `cont` — conflicts with one broadcast before the crash. -/
-theorem no_conflicting_vote_after_recovery_partial {S} (M : Machine S) (hs : ReplaySafe M)
+/-- No conflicting vote after recovery, stated for ANY crash image described by its content (the
+crash-point form below is derived from it): the image holds the node's log above a watermark
+`p ≤ chain`, the chain is one below the machine's height, and the votes broadcast before the crash
+are among those of the run. -/
+theorem no_conflicting_vote_after_recovery_from_image {S} (M : Machine S) (hs : ReplaySafe M)
     (ne : NoEquivocation M) (c0 : Nat) (ins : List Input) (ok : ListenOK M (M.init (c0 + 1)) ins)
     (n : Node) (p : Nat)
     (hchain : n.chainHeight + 1 = M.height (liveRun M (M.init (c0 + 1)) ins).1)
@@ -170,7 +163,100 @@ theorem no_conflicting_vote_after_recovery_partial {S} (M : Machine S) (hs : Rep
   have hb : M.height (liveRun M (M.init (c0 + 1)) ins).1 - 1 = n.chainHeight := by omega
   rw [hb] at inv
   simp only [List.nil_append] at inv
-  exact no_conflict_core M hs ne _ _ _ _ inv n p rfl hp hview pre hpre cont okc
+  exact no_conflict_core M hs ne _ _ _ _ inv.toW n p rfl hp hview pre hpre cont okc
+
+/-- **Every crash point yields a recoverable image** (the bookkeeping behind the next two
+theorems). The process dies after ANY prefix `pre` of the effect trace of ANY run. Then the image
+is that of an earlier moment of the run: there are a machine state `sd`, a log `Ed` and a trace
+`trd` such that the image's live entries are `Ed` above a watermark `p ≤ chain`, its flushed entries
+are exactly `Ed`, `sd` is the state of the replay of the sorted `Ed` above the chain from a fresh
+machine at `chain + 1` and ALSO the state an uncrashed machine reaches on `Ed` in recording order,
+and every vote broadcast in `pre` was broadcast by then. -/
+theorem crash_image_durable {S} (M : Machine S) (hs : ReplaySafe M) (c0 : Nat) (ins : List Input)
+    (ok : ListenOK M (M.init (c0 + 1)) ins) (pre post : List Effect)
+    (hsplit : (liveRun M (M.init (c0 + 1)) ins).2 = pre ++ post) :
+    Durable M c0 (applyEffects (Node.fresh c0) pre) pre := by
+  simpa using durable_all M hs c0 ins _ [] c0 [] (Node.fresh c0) (Ctx.init M hs c0) ok pre post hsplit
+
+/-- **replay_deterministic, for every crash point.** The process dies after ANY prefix `pre` of the
+effect trace (before/after every individual append, flush, broadcast, timer, delivery, prune). The
+restarted node — fresh machine at `chainHeight + 1`, fed the height-sorted, pruned image — ends in
+exactly the state an uncrashed machine, started at the original boot height, reaches when it
+processes exactly the durably recorded inputs (all flushed entries, prunes ignored) in the order
+they were recorded; and it resumes at last delivered height + 1. -/
+theorem recovery_equals_durable_history {S} (M : Machine S) (hs : ReplaySafe M) (c0 : Nat)
+    (ins : List Input) (ok : ListenOK M (M.init (c0 + 1)) ins) (pre post : List Effect)
+    (hsplit : (liveRun M (M.init (c0 + 1)) ins).2 = pre ++ post) :
+    (recover M (applyEffects (Node.fresh c0) pre)).1 =
+      (replayRun M (M.init (c0 + 1))
+        (entriesOfRecs (applyEffects (Node.fresh c0) pre).store.flushed)).1 ∧
+    M.height (recover M (applyEffects (Node.fresh c0) pre)).1 =
+      (recover M (applyEffects (Node.fresh c0) pre)).2.2.chainHeight + 1 := by
+  obtain ⟨sd, Ed, trd, p, hW, hp, hview, hent, _, htw⟩ :=
+    crash_image_durable M hs c0 ins ok pre post hsplit
+  obtain ⟨r1, _⟩ := recover_eq M hs _ Ed _ p rfl hp (by rw [hview])
+  exact ⟨by rw [r1, ← hW.state, htw, hent], resume_height M hs _⟩
+
+/-- **no_conflicting_vote_after_recovery, for every crash point.** The process dies after ANY
+prefix `pre` of the effect trace of ANY run; it is restarted from the crash image and then
+processes ANY further inputs `cont`. No prevote or precommit it broadcasts after the restart —
+while replaying or later — conflicts with (same kind, height, round, different id) one it
+broadcast before the crash. Hypotheses: `ReplaySafe` (the machine used for the recovery is the
+same deterministic function) and `NoEquivocation` (a single uncrashed execution never equivocates).
+Without the first the statement is false: `conflicting_prevote_when_value_source_changes`. -/
+theorem no_conflicting_vote_after_recovery {S} (M : Machine S) (hs : ReplaySafe M)
+    (ne : NoEquivocation M) (c0 : Nat) (ins : List Input)
+    (ok : ListenOK M (M.init (c0 + 1)) ins) (pre post : List Effect)
+    (hsplit : (liveRun M (M.init (c0 + 1)) ins).2 = pre ++ post) (cont : List Input)
+    (okc : ListenOK M (recover M (applyEffects (Node.fresh c0) pre)).1 cont) :
+    ∀ v ∈ votesOf pre,
+      ∀ w ∈ votesOf ((recover M (applyEffects (Node.fresh c0) pre)).2.1 ++
+        (liveRun M (recover M (applyEffects (Node.fresh c0) pre)).1 cont).2),
+      ¬ v.conflicts w := by
+  obtain ⟨sd, Ed, trd, p, hW, hp, hview, _, hv, _⟩ :=
+    crash_image_durable M hs c0 ins ok pre post hsplit
+  exact no_conflict_core M hs ne sd Ed _ trd hW _ p rfl hp (by rw [hview]) pre hv cont okc
+
+/-- **Regular stop and restart.** `Run` returns (context cancelled or a listener closed, both only
+in the select loop) and its deferred `db.Close()` flushes the pending batch — also entries of
+inputs that made nothing visible and were never flushed before. A process restarted on that image
+is in exactly the state of the stopped one, and resumes at the right height. -/
+theorem regular_stop_recovers_exact_state {S} (M : Machine S) (hs : ReplaySafe M) (c0 : Nat)
+    (ins : List Input) (ok : ListenOK M (M.init (c0 + 1)) ins) :
+    (recover M (applyEffects (Node.fresh c0)
+      ((liveRun M (M.init (c0 + 1)) ins).2 ++ [Effect.flush]))).1 =
+      (liveRun M (M.init (c0 + 1)) ins).1 := by
+  obtain ⟨hch, p, hp, hview⟩ := stopped_image M hs c0 ins ok
+  exact (replay_deterministic M hs c0 ins ok _ p hch hp hview).1
+
+/-- **`NoEquivocation` discharged for juno's state machine.** `tmMachine env node` is C12's
+executable transcription of `consensus/tendermint` + `votecounter` (tied to the real code by C12's
+harness, action for action) seen through the driver's interface; C12's `run_no_double_vote` gives
+that it never sends two prevotes or two precommits for the same height and round in one execution
+— for every validator set, application, and every input sequence in which timeouts follow `start`
+(which is what the replay discipline `ReplayOK`, an invariant of the log, guarantees). -/
+theorem tendermint_never_equivocates (env : Juno.C12.Env) (node : Nat) :
+    NoEquivocation (tmMachine env node) :=
+  tm_noEquivocation env node
+
+/-- The crash-point theorem for juno's state machine: only `ReplaySafe` remains as hypothesis (its
+fields are tested on the real machine by the harness; the one that fails in reality — the
+application answering differently during replay — is finding F1). -/
+theorem no_conflicting_vote_after_recovery_tendermint (env : Juno.C12.Env) (node : Nat)
+    (hs : ReplaySafe (tmMachine env node)) (c0 : Nat) (ins : List Input)
+    (ok : ListenOK (tmMachine env node) ((tmMachine env node).init (c0 + 1)) ins)
+    (pre post : List Effect)
+    (hsplit : (liveRun (tmMachine env node) ((tmMachine env node).init (c0 + 1)) ins).2 = pre ++ post)
+    (cont : List Input)
+    (okc : ListenOK (tmMachine env node)
+      (recover (tmMachine env node) (applyEffects (Node.fresh c0) pre)).1 cont) :
+    ∀ v ∈ votesOf pre,
+      ∀ w ∈ votesOf ((recover (tmMachine env node) (applyEffects (Node.fresh c0) pre)).2.1 ++
+        (liveRun (tmMachine env node)
+          (recover (tmMachine env node) (applyEffects (Node.fresh c0) pre)).1 cont).2),
+      ¬ v.conflicts w :=
+  no_conflicting_vote_after_recovery _ hs (tm_noEquivocation env node) c0 ins ok pre post hsplit
+    cont okc
 
 /-- The hypotheses of Part 2 are satisfiable: the toy machine of `Model.lean` (proposer or not,
 any value source) is `ReplaySafe`. -/
